@@ -28,7 +28,7 @@ theorem run_kids_lt (src : Bytes) (s : St) (h : run src = .ok s) :
   have := (L.run_closed_aux (lsp_all src) s h).1.tree
   exact (this.kid_lt (x := j) (c := c) hc).2
 
-theorem reach_plain6 (a h b : Bytes) (hh : ∀ c ∈ h, c ≠ 10) (ha : a.getLast? = some 10) (hpl : Plain6 a)
+theorem reach_plainL_of (a h b : Bytes) (hh : ∀ c ∈ h, c ≠ 10) (ha : a.getLast? = some 10) (hpl : PlainL a)
     (hPK : PassKeeps a) (hOK : OpenKeeps a)
     (sa sh sd : St) (hsa : run a = .ok sa) (hsh : run (headingLine h) = .ok sh) (hsd : run (indepDoc a h b) = .ok sd)
     (hraw : endsInRawBlock sa = false) : Sh.Reach a h b sa sh sd := by
@@ -70,8 +70,8 @@ theorem reach_plain6 (a h b : Bytes) (hh : ∀ c ∈ h, c ≠ 10) (ha : a.getLas
   · rw [q6, hlen]
 
 /-- **C09 first half for a non-empty first part** (given that run A's invariants survive a pass): every `a` that ends
-    with a line feed and has none of the bytes `- * + 0-9 = ` ~`, every `h`, every `b` -/
-theorem independent_blocks_plain6_of (a h b : Bytes) (ha : a.getLast? = some 10) (hpl : Plain6 a)
+    with a line feed and is in the positional class `PlainL`, every `h`, every `b` -/
+theorem independent_blocks_plainL_of (a h b : Bytes) (ha : a.getLast? = some 10) (hpl : PlainL a)
     (hPK : PassKeeps a) (hOK : OpenKeeps a) :
     ∀ e g, indepPair a h b = some (e, g) → e = g := by
   intro e g hp
@@ -83,6 +83,6 @@ theorem independent_blocks_plain6_of (a h b : Bytes) (ha : a.getLast? = some 10)
       | false => rw [hq] at hp; simp at hp
     exact Sh.noLF_of_bytesOK hok
   exact Sh.independent_blocks_of_reach_raw a h b
-    (fun sa sh sd h1 h2 h3 h4 => reach_plain6 a h b hh ha hpl hPK hOK sa sh sd h1 h2 h3 h4) e g hp
+    (fun sa sh sd h1 h2 h3 h4 => reach_plainL_of a h b hh ha hpl hPK hOK sa sh sd h1 h2 h3 h4) e g hp
 
 end GM.Blocks.Xs
